@@ -335,12 +335,12 @@ class Ctx:
                     cur.append(m.group(1))
         return {n: b for n, b in zip(names, blocks)}
 
-    def coq_eval(self, name, header, terms, shard=None, timeout=900):
+    def coq_eval(self, name, header, terms, shard=None, timeout=2400):
         """Evaluate `terms` (Coq expressions, strings) with vm_compute; returns parsed values.
         Sharded into files of <= shard terms, compiled in parallel."""
         files = []
         if shard is None:
-            shard = max(4, min(400, -(-len(terms) // 32)))
+            shard = max(4, min(40, -(-len(terms) // 32)))
         for s in range(0, len(terms), shard):
             path = os.path.join(self.build, '%s_%d.v' % (name, s // shard))
             with open(path, 'w') as f:
@@ -363,7 +363,7 @@ class Ctx:
             i, p = running.pop(0)
             o, e = p.communicate()
             if p.returncode != 0:
-                raise RuntimeError('model evaluation failed in %s:\n%s' % (files[i], (o + e)[-3000:]))
+                raise RuntimeError('model evaluation failed in %s (exit status %d%s): %s' % (files[i], p.returncode, ', timed out' if p.returncode == 124 else '', e[-600:]))
             outs[i] = o
         for o in outs:
             for blk in split_evals(o):
